@@ -258,6 +258,11 @@ class IndexSpec:
     pass
 
 
+def _negated_size(e) -> bool:
+    terms, const = sym.lin_parts(e)
+    return bool(terms) and const <= 0 and all(k < 0 and t[0] == "size" for t, k in terms.items())
+
+
 def index(v: Val, idx: list, interp=None) -> Val:
     """idx: list of index items: ('full',) | ('slice', lo, hi, step) with Expr|None bounds | ('int', k) |
     ('expr', Expr) scalar symbolic | ('new',) | ('mask', Arr) | ('fancy', Val) | ('ellipsis',)"""
@@ -376,6 +381,11 @@ def index(v: Val, idx: list, interp=None) -> Val:
                     lo_e = sym.add(sp.size, lo_e)
                 if hi_e[0] == "num" and hi_e[1] < 0:
                     hi_e = sym.add(sp.size, hi_e)
+                # -N with N a (positive) size also counts from the end
+                if _negated_size(lo_e):
+                    lo_e = sym.add(sp.size, lo_e)
+                if _negated_size(hi_e):
+                    hi_e = sym.add(sp.size, hi_e)
                 size = sym.sub(hi_e, lo_e)
                 nv = fresh()
                 if lo_e[0] == "num" and float(lo_e[1]).is_integer():
@@ -461,6 +471,15 @@ def index_blocks(b: Blocks, idx: list) -> Val:
         ix = tuple(it[1] if it[0] == "expr" else sym.Num(it[1]) for it in idx)
         return Sc(sym.At(b.uid, b.elem_choice(), ix))
     if len(idx) == 2 and all(it[0] == "fancy" for it in idx):
+        arrs = [to_arr(it[1]) if not isinstance(it[1], Arr) else it[1] for it in idx]
+        if all(isinstance(a, Arr) and a.ndim == 1 for a in arrs):
+            # D[rows, cols]: position t of the result reads D[rows[t], cols[t]] — both index arrays on one position variable
+            (sp0, iv0), (sp1, iv1) = arrs[0].axes[0], arrs[1].axes[0]
+            if not sp0.same_size(sp1) and sp0.concrete != 1 and sp1.concrete != 1:
+                raise ShapeError(f"index arrays of sizes {sym.show(sp0.size)} and {sym.show(sp1.size)} cannot be paired")
+            nv = fresh()
+            ix = (sym.subst_ivar(arrs[0].elem, iv0, (nv, 0)), sym.subst_ivar(arrs[1].elem, iv1, (nv, 0)))
+            return Arr([(sp0 if sp0.concrete != 1 else sp1, nv)], sym.At(b.uid, b.elem_choice(), ix), "nd")
         ix = tuple(generic_elem(it[1]) for it in idx)
         sp = None
         for it in idx:
